@@ -580,6 +580,11 @@ func (c *client) prepareResultChannels(
 	c.logger.Debugf("Preparing result channels for step with run ID %q", stepData.RunID)
 	c.mutex.Lock()
 	defer c.mutex.Unlock()
+	if c.done {
+		// Close has told the peer that no more work is coming and is waiting for the goroutines of this client to end;
+		// registering another run would start a read loop that nothing ends any more.
+		return fmt.Errorf("the client has been closed, cannot execute step with run ID '%s'", stepData.RunID)
+	}
 	_, existing := c.runningStepResultEntries[stepData.RunID]
 	if existing {
 		return fmt.Errorf("duplicate run ID given '%s'", stepData.RunID)
